@@ -1,5 +1,171 @@
-import Dagrt.Model.Names
+import Dagrt.Proofs.NamesProofs
+/-!
+# C13 — distinct IR names map to distinct, legal, stable target identifiers
+
+Model: `Dagrt.Names` (`Model/Names.lean`) = `make_identifier_from_name`, `KeyToUniqueNameMap`,
+`pytools.UniqueNameGenerator` (third party, modelled), `PythonNameManager`, `FortranNameManager`
+(with the case-insensitive generator of the `fix:` commit).  Theorems are for every name, every
+set of names in use, every sequence of look-ups.
+Not provable because false on the code (known findings, see KNOWN_FINDINGS.json): Fortran length
+limit, Python/Fortran function identifiers without a sanitising prefix, IR names that start with
+`dagrt_`.
+-/
 namespace Dagrt.C13
 open Dagrt.Names
-theorem ident_default : makeIdentifier "<>".toList = "dagrt_var".toList := by decide
+
+/-- the sanitiser returns a non-empty string of ASCII identifier characters that does not start
+    with an underscore -/
+theorem sanitised (name : List Char) :
+    makeIdentifier name ≠ [] ∧ (∀ c ∈ makeIdentifier name, identChar c = true) ∧
+    (∀ x xs, makeIdentifier name = x :: xs → x ≠ '_') :=
+  ⟨makeIdentifier_ne_nil name, makeIdentifier_chars name, makeIdentifier_head name⟩
+
+/-- the generator never fails … -/
+theorem generator_total (g : Gen) (b : List Char) : ∃ r, g.call b = some r := gen_total g b
+
+/-- … and what it returns was not in use (case-folded for Fortran), is in use afterwards, and
+    nothing in use is forgotten -/
+theorem generator_fresh (g g' : Gen) (b nm : List Char) (h : g.call b = some (g', nm)) :
+    g.conflicting nm = false ∧ g'.conflicting nm = true ∧
+      (∀ m, g.conflicting m = true → g'.conflicting m = true) := gen_fresh g g' b nm h
+
+/-- hence ALL names handed out by one generator, over any history of calls, are pairwise
+    different under the target's identifier comparison -/
+theorem generator_history_distinct (g0 : Gen) : ∀ (seeds : List (List Char)) (g : Gen) (out : List (List Char)),
+    (∀ n ∈ out, g.conflicting n = true) → (out.map g.norm).Nodup →
+    ∀ gN outN, seeds.foldl (fun (st : Option (Gen × List (List Char))) b =>
+        match st with
+        | none => none
+        | some (g, o) => match g.call b with
+          | none => none
+          | some (g', n) => some (g', o ++ [n])) (some (g, out)) = some (gN, outN) →
+      gN.caseless = g.caseless → (outN.map g.norm).Nodup
+  | [], g, out, _, hnd, gN, outN, h, _ => by simp at h; rw [← h.2]; exact hnd
+  | b :: bs, g, out, hk, hnd, gN, outN, h, hcl => by
+    simp only [List.foldl] at h
+    cases hc : g.call b with
+    | none =>
+      simp [hc] at h
+      have : ∀ l : List (List Char), l.foldl (fun (st : Option (Gen × List (List Char))) b =>
+          match st with
+          | none => none
+          | some (g, o) => match g.call b with
+            | none => none
+            | some (g', n) => some (g', o ++ [n])) none = none := by
+        intro l; induction l with
+        | nil => rfl
+        | cons _ _ ih => simpa using ih
+      rw [this] at h; cases h
+    | some r =>
+      obtain ⟨g1, n⟩ := r
+      simp only [hc] at h
+      obtain ⟨hfree, htaken, hmono⟩ := gen_fresh g g1 b n hc
+      have hcl1 : g1.caseless = g.caseless := by
+        unfold Gen.call at hc
+        simp only at hc
+        -- every branch only changes `counters` and `existing`
+        have fin : ∀ (bb : List Char) (r : Option (Nat × List Char)),
+            (match r with
+              | none => none
+              | some (k, nm') => some ({ g with counters := setCounter g.counters bb k }.addName nm', nm')) = some (g1, n) →
+            g1.caseless = g.caseless := by
+          intro bb r hr
+          cases r with
+          | none => simp at hr
+          | some p => obtain ⟨k, nm'⟩ := p; simp at hr; rw [← hr.1]; rfl
+        split at hc
+        · exact fin _ _ hc
+        · split at hc
+          · exact fin _ _ hc
+          · split at hc
+            · exact fin _ _ hc
+            · simp only [Option.some.injEq, Prod.mk.injEq] at hc; rw [← hc.1]; rfl
+      have hnorm : ∀ x, g1.norm x = g.norm x := by intro x; simp [Gen.norm, hcl1]
+      have hnormf : g1.norm = g.norm := funext hnorm
+      have := generator_history_distinct g0 bs g1 (out ++ [n])
+        (by intro m hm; simp at hm; rcases hm with h' | h'
+            · exact hmono m (hk m h')
+            · subst h'; exact htaken)
+        (by
+          rw [List.map_append, List.nodup_append]
+          refine ⟨by rw [hnormf]; exact hnd, by simp, ?_⟩
+          intro a ha b' hb' e; subst e
+          simp at hb'; subst hb'
+          simp only [List.mem_map] at ha
+          obtain ⟨m, hm, he⟩ := ha
+          have h1 := hk m hm
+          rw [hnorm, hnorm] at he
+          rw [norm_conflicting_eq g m n he, hfree] at h1; cases h1)
+        gN outN h (by rw [hcl, hcl1])
+      rw [hnormf] at this; exact this
+
+/-- a later look-up of the same key returns the first answer -/
+theorem map_lookup_stable (m m' : KeyMap) (g g' g'' : Gen) (key : String) (p p' : Option String)
+    (n : List Char) (h : getOrMake m g key p = some (m', g', n)) :
+    getOrMake m' g'' key p' = some (m', g'', n) := map_stable m m' g g' g'' key p p' n h
+
+/-- distinct keys never share an identifier: the invariant "all identifiers of the map are known to
+    the generator and pairwise different (case-folded for Fortran)" survives every look-up -/
+theorem map_stays_injective (m m' : KeyMap) (g g' : Gen) (key : String) (p : Option String)
+    (n : List Char) (hi : MapInv m g) (h : getOrMake m g key p = some (m', g', n))
+    (hn : g'.caseless = g.caseless) : MapInv m' g' := map_injective m m' g g' key p n hi h hn
+
+/-- Python per-step variables: `local` + identifier characters — a legal identifier that is not a
+    keyword and cannot coincide with anything the generated class defines itself
+    (`self.…` attributes, method names) -/
+theorem py_local_legal (g g' : Gen) (x nm : List Char) (hp : g.forcedPrefix = "local".toList)
+    (h : g.call (makeIdentifier x) = some (g', nm)) :
+    (∃ rest, nm = "local".toList ++ rest ∧ ∀ c ∈ rest, identChar c = true) ∧
+    (∀ kw ∈ pyKeywords, nm ≠ kw.toList) := by
+  obtain ⟨rest, hr, hc⟩ := py_local_shape g g' x nm hp h
+  refine ⟨⟨rest, hr, hc⟩, ?_⟩
+  intro kw hkw heq
+  have := keyword_not_local kw hkw
+  rw [← heq, hr] at this
+  have h2 : ("local".toList).isPrefixOf ("local".toList ++ rest) = true := by
+    rw [List.isPrefixOf_iff_prefix]; exact List.prefix_append _ _
+  rw [h2] at this; cases this
+
+/-- storage class: persistent names (and only they) go through the instance/state map -/
+theorem py_storage_class (s s' : PyNames) (n : String) (r : List Char)
+    (h : s.step (.var n) = some (s', r)) :
+    (Dagrt.Kinds.isState n = true → s'.localM = s.localM ∧ (n, r) ∈ s'.globalM) ∧
+    (Dagrt.Kinds.isState n = false → s'.globalM = s.globalM ∧ (n, r) ∈ s'.localM) := by
+  simp only [PyNames.step] at h
+  have key : ∀ (m m' : KeyMap) (g g' : Gen) (p : Option String), getOrMake m g n p = some (m', g', r) → (n, r) ∈ m' := by
+    intro m m' g g' p hg
+    unfold getOrMake at hg
+    split at hg
+    · rename_i n0 hl
+      simp only [Option.some.injEq, Prod.mk.injEq] at hg
+      rw [← hg.1, ← hg.2.2]; exact lookup_mem hl
+    · simp only at hg
+      split at hg
+      · cases hg
+      · simp only [Option.some.injEq, Prod.mk.injEq] at hg
+        rw [← hg.1, ← hg.2.2]; simp
+  split at h
+  · rename_i hs
+    split at h
+    · rename_i m g r' hg
+      simp only [Option.some.injEq, Prod.mk.injEq] at h
+      obtain ⟨hs', hr⟩ := h
+      subst hr
+      refine ⟨fun _ => ⟨by rw [← hs'], by rw [← hs']; exact key _ _ _ _ _ hg⟩, fun hf => by rw [hs] at hf; cases hf⟩
+    · cases h
+  · rename_i hs
+    split at h
+    · rename_i m g r' hg
+      simp only [Option.some.injEq, Prod.mk.injEq] at h
+      obtain ⟨hs', hr⟩ := h
+      subst hr
+      refine ⟨fun ht => absurd ht hs, fun _ => ⟨by rw [← hs'], by rw [← hs']; exact key _ _ _ _ _ hg⟩⟩
+    · cases h
+
+/-! non-vacuity: names that collide after sanitising, that look generated, that differ in case -/
+example : (PyNames.init.step (.var "x")).map (·.2) = some "localx".toList := by decide
+example : makeIdentifier "<cond>a b".toList = "cond_a_b".toList := by decide
+example : counterMatch "localx_007".toList = some ("localx".toList, 7) := by decide
+example : counterMatch "self.global_x_1".toList = none := by decide
+
 end Dagrt.C13
